@@ -355,6 +355,16 @@ impl Prop for C16 {
                 );
             }
             let before = Value::Object(obj);
+            // every other vehicle query is preceded, on the same plugin, by its twin without a
+            // vehicle description (same coordinates and classes): an answer belongs to one query
+            if vehicle.is_some() && qi % 2 == 0 {
+                let mut twin = before.clone();
+                if let Some(t) = twin.as_object_mut() {
+                    t.remove("vehicle_parameters");
+                }
+                let _ = plugin.process(&mut twin);
+                o.label("same-coordinates-asked-first-without-vehicle");
+            }
             let mut query = before.clone();
             let result = plugin.process(&mut query);
             // admissibility of each candidate for this query
